@@ -10,6 +10,7 @@
 EXTENDS Integers, Sequences, FiniteSets, TLC, Json
 
 Ms == {4, 8, 16}
+BigMs == {4, 8, 16, 32, 64, 128, 256}          \* thorough tier: substituted for Ms by the configuration file
 
 \* ---- definitions: where evaluation j of row r lives in a (possibly strided) array of reim vectors
 Re(m, sl, r, j) == r * sl + j
